@@ -226,10 +226,10 @@ where
     {
         loop {
             match self.peek()? {
-                Some(b' ') | Some(b'\n') | Some(b'\t') | Some(b'\r') | Some(b')') | Some(b']')
-                | Some(b'(') | Some(b'[') | Some(b';') | None => {
+                next @ (Some(b' ') | Some(b'\n') | Some(b'\t') | Some(b'\r') | Some(b')')
+                | Some(b']') | Some(b'(') | Some(b'[') | Some(b';') | None) => {
                     if scratch == b"." {
-                        return error(self, ErrorCode::InvalidSymbol);
+                        return error(self, lone_dot_error(next));
                     }
                     return result(self, scratch);
                 }
@@ -383,20 +383,20 @@ impl<'a> SliceRead<'a> {
 
         loop {
             match self.peek_byte() {
-                None | Some(b' ') | Some(b'\n') | Some(b'\t') | Some(b'\r') | Some(b')')
-                | Some(b']') | Some(b'(') | Some(b'[') | Some(b';') => {
+                next @ (None | Some(b' ') | Some(b'\n') | Some(b'\t') | Some(b'\r') | Some(b')')
+                | Some(b']') | Some(b'(') | Some(b'[') | Some(b';')) => {
                     if scratch.is_empty() {
                         // Fast path: return a slice of the raw S-expression without any
                         // copying.
                         let borrowed = &self.slice[start..self.index];
                         if borrowed == b"." {
-                            return error(self, ErrorCode::InvalidSymbol);
+                            return error(self, lone_dot_error(next));
                         }
                         return result(self, borrowed).map(Reference::Borrowed);
                     } else {
                         scratch.extend_from_slice(&self.slice[start..self.index]);
                         if scratch == b"." {
-                            return error(self, ErrorCode::InvalidSymbol);
+                            return error(self, lone_dot_error(next));
                         }
                         // "as &[u8]" is required for rustc 1.8.0
                         let copied = scratch as &[u8];
@@ -694,6 +694,15 @@ fn as_char<'de, 's, R: Read<'de> + ?Sized>(read: &R, value: u32) -> Result<char>
     match char::from_u32(value) {
         None => error(read, ErrorCode::InvalidUnicodeCodePoint),
         Some(c) => Ok(c),
+    }
+}
+
+/// The error code for a symbol consisting of a lone dot, given the byte
+/// following it. At the end of input, more symbol characters might follow.
+fn lone_dot_error(next: Option<u8>) -> ErrorCode {
+    match next {
+        Some(_) => ErrorCode::InvalidSymbol,
+        None => ErrorCode::EofWhileParsingValue,
     }
 }
 
@@ -1003,10 +1012,32 @@ fn parse_r6rs_char<'de, R: Read<'de> + ?Sized>(
             b"esc" => Ok('\x1B'),
             b"space" => Ok(' '),
             b"delete" => Ok('\x7F'),
-            _ => error(read, ErrorCode::InvalidCharacterConstant),
+            name => {
+                // At the end of input, the name might just be incomplete.
+                if read.peek()?.is_none() && R6RS_CHAR_NAMES.iter().any(|n| n.starts_with(name)) {
+                    error(read, ErrorCode::EofWhileParsingCharacterConstant)
+                } else {
+                    error(read, ErrorCode::InvalidCharacterConstant)
+                }
+            }
         }
     }
 }
+
+static R6RS_CHAR_NAMES: [&[u8]; 12] = [
+    b"nul",
+    b"alarm",
+    b"backspace",
+    b"tab",
+    b"linefeed",
+    b"newline",
+    b"vtab",
+    b"page",
+    b"return",
+    b"esc",
+    b"space",
+    b"delete",
+];
 
 /// Expects a `#\x` sequence has just been consumed; returns the value of the
 /// subsequent hex digits, or `None`, if the sequence was empty.
@@ -1207,7 +1238,7 @@ pub(crate) fn decode_utf8_sequence<'de, R: Read<'de> + ?Sized>(
     for _ in 0..len {
         let b = match read.next()? {
             Some(c) => c,
-            None => return error(read, ErrorCode::InvalidUnicodeCodePoint),
+            None => return error(read, ErrorCode::EofWhileParsingValue),
         };
         scratch.push(b);
     }
